@@ -165,6 +165,11 @@ void va_events_json(const char* key) {
   fputc(']', vh_out);
 }
 
+/* fill a fresh block with a non-zero pattern (whole block up to 64 KiB, first and last 4 KiB beyond: huge declared counts are cheap to refuse) */
+static void va_junk(void* p, size_t size) {
+  if (size <= 65536) memset(p, 0xD5, size);
+  else { memset(p, 0xD5, 4096); memset((unsigned char*)p + size - 4096, 0xD5, 4096); }
+}
 static void* va_malloc_(size_t size);
 static void* va_realloc_(void* old, size_t size);
 static void va_free_(void* p);
@@ -190,7 +195,7 @@ static void* va_malloc_(size_t size) {
   }
   void* p = back_alloc(size);
   if (!p) abort();
-  if (size <= ((size_t)1 << 20)) memset(p, 0xD5, size); /* fresh memory is never zero: nothing may rely on what malloc happens to return */
+  va_junk(p, size); /* fresh memory is never zero: nothing may rely on what malloc happens to return */
   long id = ++va_serial;
   va_put(p, size, id);
   va.mallocs++;
@@ -225,7 +230,7 @@ static void* va_realloc_(void* old, size_t size) {
   }
   void* p = back_alloc(size);
   if (!p) abort();
-  if (size <= ((size_t)1 << 20)) memset(p, 0xD5, size);
+  va_junk(p, size);
   long id = ++va_serial;
   if (e) {
     memcpy(p, old, e->size < size ? e->size : size);
